@@ -231,6 +231,13 @@ def kill_conds_on_assign(node, state):
                         ("cond", x, bool(v.value))}
                 if not isinstance(v.value, bool):
                     out.add(("cond", "%s == %s" % (x, unparse(v)), True))
+        elif isinstance(v, ast.Name) and v.id != x:
+            # a copy carries what the path knows about the copied name
+            for f in list(out):
+                if f[0] == "cond" and f[1] == "%s is None" % v.id:
+                    out.add(("cond", "%s is None" % x, f[2]))
+                elif f[0] == "cond" and f[1] == v.id:
+                    out.add(("cond", x, f[2]))
         elif isinstance(v, ast.Compare) and len(v.ops) == 1 and isinstance(
                 v.ops[0], (ast.Is, ast.IsNot)) and isinstance(
                     v.comparators[0], ast.Constant) and \
